@@ -102,6 +102,10 @@ def _jobs(tier, seed):
     rng = random.Random(4343)
     for i, g in enumerate(acyc[: p["nprefix"]]):
         jobs.append({"g": g, "inputs": _inputs_plain(g, p, rng), "tables": ["LALR"], "consume": False, "origin": "det", "variant": "prefix", "pretable": i % 3 == 2})
+        if i % 4 == 1:
+            # lexical_disambiguation on (C17's quantifier): without lexical overlap it must change nothing
+            jobs.append({"g": g, "inputs": jobs[-1]["inputs"], "tables": ["LALR"], "consume": False, "origin": "det", "variant": "prefix-ld1",
+                         "opts": {"lexical_disambiguation": True}})
     # consume_input = False under lexical overlap: a longer token is still pending while a shorter prefix is already accepted
     # (round-2 seeded change C17-c: the main loop stopped as soon as no head could scan and something was accepted)
     rng = random.Random(9002)
